@@ -2,8 +2,9 @@
 C09 - spline quadrature weights integrate the interpolant exactly.
 
 Proof: Props/C09.v (InterpModel.v: ip_integrals = BSplines._build_integrals as written, ip_quad_from =
-get_quadrature_coefficients; InterpTheory.v: duality, weight sum, equal-weights certificate; InterpQc.v:
-the two refutations).
+get_quadrature_coefficients; InterpTheory.v: duality, weight sum, equal-weights certificate; QuadTheory.v / QuadSumTheory.v: closed form of the
+clamped integrals, weights sum to the domain length on every general space; CirculantTheory.v: equal weights on the
+uniform-cubic periodic path; InterpQc.v: the remaining refutation).
 
 Tie (the code is numpy/scipy level: it is run on binary64 and every double is converted exactly):
   * BSplines.integrals and the quadrature weights of the code vs. the extracted Qc model run on the code's
@@ -355,16 +356,16 @@ STATS0 = {'max_ratio_integrals': 0.0, 'max_ratio_weights': 0.0, 'max_ratio_weigh
           'periodic_nonuniform_weight_sum_exact_on_model': 0, 'model_refutes_cubic_clamped_small': 0}
 
 UNCOVERED = [
-    'integral_formula_clamped (the degree-raised evaluation of _build_integrals returns (t_{j+p+1}-t_j)/(p+1)) is not proved: '
-    'compared exactly with the closed form and with exact piecewise integration on every tested clamped space',
-    'that (t_{j+p+1}-t_j)/(p+1) is the integral of B_j is the classical identity (cited); the harness integrates every basis '
-    'function exactly, independently of the model',
-    'all weights equal dx on every uniform periodic space: proved in certificate form only (c09_weights_equal_cert); the '
-    'hypotheses are checked per instance on the model',
+    'that (t_{j+p+1}-t_j)/(p+1) is the integral of B_j (and, on periodic spaces, that each stored piece is the integral of the '
+    'unwrapped basis function over the domain) is the classical antiderivative identity (cited): the harness integrates every '
+    'basis function exactly, independently of the model; what IS proved: the clamped closed form (c09_integral_formula_clamped) '
+    'and that the stored values of every general space sum to the domain length (c09_integrals_general_sum)',
+    'all weights equal dx on uniform periodic spaces of degree != 3 (general path): certificate form only '
+    '(c09_weights_equal_cert, hypotheses checked per instance on the model); the uniform-cubic path is proved with the checked '
+    'inverse as only hypothesis (c09_weights_equal_cubic)',
+    'weights of the uniform-cubic CLAMPED path sum to the domain length: not proved (hard-coded edge values; REFUTED for 1-2 cells: '
+    'c09_integrals_cubic_clamped_small_refuted, known finding); checked exactly on the model for >= 3 cells',
     'rounding, LAPACK / SuperLU transposed solves are not modelled (bounds)',
-    'weights of a periodic space sum to the period for ALL spaces (needs the integral formula): checked exactly on the model '
-    'for every tested space, uniform and non-uniform, ncells == degree included',
-    'REFUTED, not uncovered: uniform-cubic clamped spaces with 1-2 cells (c09_integrals_cubic_clamped_small_refuted); known finding',
 ]
 
 
